@@ -15,6 +15,18 @@ DECORATOR = {"classmethod": "@classmethod", "staticmethod": "@staticmethod"}
 INTRO_VALUE = 40      # value of the module global G (the spec's IntroDef)
 
 
+def run_entry(root, relpath):
+    """engine.runpy.run_entry with a generous timeout and one retry: the programs terminate by
+    construction, a timeout only means the machine is overloaded"""
+    import subprocess
+    for timeout in (120, 600):
+        try:
+            return runpy.run_entry(root, relpath, timeout=timeout)
+        except subprocess.TimeoutExpired:
+            continue
+    return runpy.run_entry(root, relpath, timeout=1800)
+
+
 def lit(site, v):
     return str(100 * (site + 1) + v) if v < 10 else str(v)
 
